@@ -284,6 +284,45 @@ def convert_subscript_index(index: expr, transf: typing.Callable[[expr], expr]) 
     return transf(index)
 
 
+def has_walrus(node: expr) -> bool:
+    """
+    Whether there is a walrus in the expr.
+    A walrus is not allowed in the iterable of a comprehension
+    (even in a lambda in the iterable)
+    """
+    return any(isinstance(sub_node, NamedExpr) for sub_node in walk(node))
+
+
+def get_walrus_targets_of_while_tests(body: list[stmt]) -> set[str]:
+    """
+    Get the targets of the walruses in the tests of the `while` loops
+    of a scope (inner functions/classes/lambdas are not included).
+    The test of a `while` loop is converted to a lambda,
+    the targets have to be assigned from the lambda.
+    """
+    targets: set[str] = set()
+    # (node, is in the test of a while loop)
+    stack: list[tuple[AST, bool]] = [(node, False) for node in body]
+    while stack:
+        node, in_test = stack.pop()
+        if isinstance(node, (FunctionDef, ClassDef)):
+            # the decorators etc. are in this scope
+            for sub_node in iter_child_nodes(node):
+                if sub_node not in node.body:
+                    stack.append((sub_node, in_test))
+            continue
+        if isinstance(node, Lambda):
+            stack.append((node.args, in_test))
+            continue
+        if isinstance(node, NamedExpr) and in_test:
+            targets.add(node.target.id)
+        for sub_node in iter_child_nodes(node):
+            stack.append(
+                (sub_node, in_test or (isinstance(node, While) and sub_node is node.test))
+            )
+    return targets
+
+
 def as_condition(test: expr) -> expr:
     """
     Used when `test` runs as a value, the truth value of which is checked by
